@@ -30,16 +30,16 @@ def plan(tier, seed):
     k = 4 if tier == 'quick' else 12
     for i in range(k):
         shards.append({'name': 'exhaustive-%d' % i, 'fn': 'shard_exhaustive', 'args': {'part': i, 'parts': k}})
-    r = 4 if tier == 'quick' else 10
+    r = 4 if tier == 'quick' else 24
     for i in range(r):
         shards.append({'name': 'random-%d' % i, 'fn': 'shard_random', 'args': {'part': i, 'parts': r}})
-    p = 3 if tier == 'quick' else 8
+    p = 3 if tier == 'quick' else 16
     for i in range(p):
         shards.append({'name': 'pipeline-%d' % i, 'fn': 'shard_pipeline', 'args': {'part': i}})
     shards.append({'name': 'long-history', 'fn': 'shard_long_history', 'args': {}})
     if tier == 'thorough':
         shards.append({'name': 'million-keys', 'fn': 'shard_million_keys', 'args': {}, 'timeout': 3600})
-    for i in range(1 if tier == 'quick' else 3):
+    for i in range(1 if tier == 'quick' else 6):
         shards.append({'name': 'export-%d' % i, 'fn': 'shard_export', 'args': {'part': i}})
     return shards
 
